@@ -135,6 +135,9 @@ PROPS['C12'] = dict(
           'policy rebuilt from the persisted metadata: same', '3 ids'),
         O('C12.step3_lost', 'harness.c12_cache', 'step3_lost', 200, 600,
           'policy rebuilt, state lost: fresh designer gets all COMPLETED + all ACTIVE', '3 ids'),
+        O('C12.step3_corrupt', 'harness.c12_cache', 'step3_corrupt_designer_state', 240, 600,
+          'policy rebuilt, designer state undecodable but cache state intact: fresh designer gets ALL completed trials '
+          '(never a half-restored pair)', '3 ids'),
         O('C12.step3_scratch', 'harness.c12_cache', 'step3_scratch', 120, 600,
           'DesignerPolicy (rebuilt per request): complete current set of completed and active trials', '3 ids, 6 kinds'),
     ] + [
